@@ -207,3 +207,16 @@ package td
 //@   loop 1 step badshrink: len(out) < $head(len(out))
 //@   loop 1 invariant own: cap(out) == 0 || fresh(out)
 //@ end
+
+//@ func PublishAfterWrite
+//@   store Maps after write
+//@ end
+//@ func PublishBeforeWrite#bad
+//@   store Maps after write
+//@ end
+
+//@ func UniqueIDs
+//@   requires nn: forall k int :: 0 <= k && k < len(xs) ==> xs[k] != nil
+//@   loop 1 step fresh-id: in(x.Port, used) && x.Port != 0 && forall v int :: v == x.Port ==> !$headmem(in(v, used))
+//@   loop 1 step badstale: forall v int :: v == x.Port ==> $headmem(in(v, used))
+//@ end
